@@ -150,13 +150,16 @@ func cardMultigetDoc(r *rt.Rand, p davPaths) string {
 
 const icalDoc = "BEGIN:VCALENDAR\r\nVERSION:2.0\r\nPRODID:-//vsim//EN\r\nBEGIN:VEVENT\r\nUID:put-1@example.org\r\nDTSTAMP:20240101T100000Z\r\nDTSTART:20240102T100000Z\r\nDTEND:20240102T110000Z\r\nSUMMARY:Uploaded; with\\, escapes\r\nEND:VEVENT\r\nEND:VCALENDAR"
 
+// (No vCard property here has parameters of two different names: go-vcard
+// writes parameters in Go-map order, so such a card comes back in one of
+// several byte sequences, and two observations of it compare unequal.)
 // Well-formed objects of other shapes than the two above: what a client may
 // legally store (a vCard needs no UID, EMAIL or N; a calendar object may be a
 // to-do, an all-day or recurring event, or carry a VTIMEZONE next to its event).
 var validVcardDocs = []string{
 	vcardDoc,
 	"BEGIN:VCARD\r\nVERSION:3.0\r\nFN:No Uid\r\nN:Uid;No;;;\r\nEND:VCARD",
-	"BEGIN:VCARD\r\nVERSION:4.0\r\nFN:Four Oh\r\nUID:urn:uid:put-4\r\nTEL;VALUE=uri;TYPE=\"voice,home\":tel:+1-555-555-5555\r\nEND:VCARD",
+	"BEGIN:VCARD\r\nVERSION:4.0\r\nFN:Four Oh\r\nUID:urn:uid:put-4\r\nTEL;TYPE=\"voice,home\":tel:+1-555-555-5555\r\nEND:VCARD",
 	"BEGIN:VCARD\r\nVERSION:3.0\r\nFN:Put Person\r\nUID:urn:uid:Ann\r\nNOTE:same UID as a stored card\r\nEND:VCARD",
 	"BEGIN:VCARD\r\nVERSION:3.0\r\nFN:Only a name\r\nEND:VCARD",
 }
